@@ -11,12 +11,13 @@ namespace Pharmpy.C13
 
 theorem sep_regex_is_modelled : Generated.sepRegex = " *, *| *[\\t] *| +" := by decide
 theorem comment_regex_is_modelled :
-    Generated.commentAt = "^[ \\t]*[A-Za-z#@].*\\n" ∧ Generated.commentPrefix = "^[" ∧
-    Generated.commentSuffix = "].*\n" := by decide
+    Generated.commentAt = "^[ \\t]*[A-Za-z#@].*(\\n|$)" ∧ Generated.commentPrefix = "^[" ∧
+    Generated.commentSuffix = "].*(\\n|$)" ∧ Generated.commentEscaped = true := by decide
 theorem spacetab_blank_regex_is_modelled :
-    Generated.spaceTab = " \\t" ∧ Generated.blankLine = "^[ \\t]*\\n$" := by decide
+    Generated.spaceTab = " \\t" ∧ Generated.blankLine = "^[ \\t]*\\n" := by decide
 theorem short_regex_is_modelled :
-    Generated.shortRegex = "([+\\-]?)([^+\\-dD]*)([+-])([^+\\-dD]*)" := by decide
+    Generated.shortRegex = "([+\\-]?)([^+\\-dD]*)([+-])([^+\\-dD]*)" ∧
+    Generated.shortMatchFn = "fullmatch" := by decide
 theorem item_limit_is_modelled : Generated.itemLimit = itemLimit := by decide
 theorem special_columns_are_modelled :
     Generated.specialCols.map String.toList = timeName :: dateNames ∧
@@ -293,7 +294,9 @@ theorem short_form_value (m e : Str) (sg : Char) (hm : ∀ c ∈ m, isDig c = tr
       intro h; rcases h with h | h <;> simp at h
     have hshort : shortForm ((c0 :: m') ++ sg :: e) = some ((c0 :: m') ++ 'E' :: sg :: e) := by
       have : shortTry none ((c0 :: m') ++ sg :: e) = some ((c0 :: m') ++ 'E' :: sg :: e) := by
-        simp only [shortTry, twN.1, twN.2, hsgS, twE.1]
+        have hallN : e.all notSD = true := by
+          simpa using fun c hc => (isDig_props c (he c hc)).1
+        simp only [shortTry, twN.1, twN.2, hsgS, hallN]
         simp
       simp only [List.cons_append, shortForm, hc0.2.1]
       simpa using this
@@ -326,14 +329,17 @@ theorem short_form_value (m e : Str) (sg : Char) (hm : ∀ c ∈ m, isDig c = tr
 theorem lone_sign_zero :
     convertFortran ['+'] = .ok ⟨false, 0, 0⟩ ∧ convertFortran ['-'] = .ok ⟨false, 0, 0⟩ := by decide
 
-/-- The full statement `convertFortran s = ok v ↔ specNumber s = some v` is false of the
-    code in both directions. -/
-theorem signed_d_rejected_witness :
-    convertFortran "-5D1".toList = .error .valueError ∧ specNumber "-5D1".toList = some ⟨true, 5, 1⟩ := by
+/-- (fixed d532311) a D exponent after a signed mantissa is read; before the fix the
+    unanchored short-form match took the leading sign for the exponent sign. -/
+theorem signed_d_accepted :
+    convertFortran "-5D1".toList = .ok ⟨true, 5, 1⟩ ∧ specNumber "-5D1".toList = some ⟨true, 5, 1⟩ ∧
+    convertFortran "+1d-3".toList = .ok ⟨false, 1, -3⟩ := by
   decide
 
-theorem malformed_accepted_witness :
-    convertFortran "2-1-3".toList = .ok ⟨false, 2, -1⟩ ∧ specNumber "2-1-3".toList = none := by
+/-- (fixed d532311) text after a short-form number is no longer ignored -/
+theorem malformed_rejected :
+    convertFortran "2-1-3".toList = .error .valueError ∧ specNumber "2-1-3".toList = none ∧
+    convertFortran "2-1D5".toList = .error .valueError := by
   decide
 
 /-- non-vacuity of `short_form_value`: its hypotheses hold for `25-13` -/
@@ -345,19 +351,54 @@ example : convertFortran "2-1".toList = .ok ⟨false, 2, -1⟩ ∧ convertFortra
 
 /-! ## NMTRANDataIO -/
 
-/-- A single blank line between data rows is not reported (the regexp
-    `^[ \t]*\n$` needs the end of the text or a second newline after it), and
-    pandas then skips it. Two blank lines, or one at the end, are reported. -/
+/-- (fixed 8ee6a73) a blank newline-terminated line is reported wherever it is -/
+theorem blank_line_reported (ic : Char) (contents : Str) (lines : List Str)
+    (h : prefilter ic contents = .ok lines) : ∀ l ∈ keptTerm ic contents, isBlankLine l = false := by
+  unfold prefilter at h
+  by_cases h1 : ((keptTerm ic contents).any (fun l => !noSpTab l) || !noSpTab (keptLast ic contents)) = true
+  · simp [h1] at h
+  · by_cases h2 : blankHit (keptTerm ic contents) = true
+    · simp [h1, h2] at h
+    · intro l hl
+      have h2' : (keptTerm ic contents).any isBlankLine = false := by simpa [blankHit] using h2
+      have := List.any_eq_false.mp h2' l hl
+      simpa using this
+
 theorem blank_line_witness :
-    prefilter '#' "1,2\n\n4,3\n".toList = .ok ["1,2".toList, [], "4,3".toList] ∧
-    prefilter '#' "1,2\n\n\n4,3\n".toList = .error .blankLine ∧
+    prefilter '#' "1,2\n\n4,3\n".toList = .error .blankLine ∧
+    prefilter '#' "1,2\n  \n4,3\n".toList = .error .blankLine ∧
     prefilter '#' "1,2\n4,3\n\n".toList = .error .blankLine := by decide
 
-/-- comment lines: IGNORE=c removes newline-terminated lines starting with c;
-    an unterminated last line is kept. -/
+/-- comment lines: IGNORE=c removes the lines starting with c — also an unterminated
+    last line (fixed 82e4d59) and for a regex meta character (fixed 0a05222). -/
 theorem comment_line_witness :
     prefilter '#' "#h\n1,2\n#x\n".toList = .ok ["1,2".toList] ∧
-    prefilter '#' "1,2\n#x".toList = .ok ["1,2".toList, "#x".toList] ∧
+    prefilter '#' "1,2\n#x".toList = .ok ["1,2".toList] ∧
+    prefilter '^' "^h\n1,2\n".toList = .ok ["1,2".toList] ∧
     prefilter '@' " ID,DV\n1,2\n".toList = .ok ["1,2".toList] := by decide
+
+/-- no comment line survives the prefilter (terminated or not) -/
+theorem comment_lines (ic : Char) (contents : Str) (lines : List Str)
+    (h : prefilter ic contents = .ok lines) : ∀ l ∈ lines, isComment ic l = false := by
+  unfold prefilter at h
+  by_cases h1 : ((keptTerm ic contents).any (fun l => !noSpTab l) || !noSpTab (keptLast ic contents)) = true
+  · simp [h1] at h
+  · by_cases h2 : blankHit (keptTerm ic contents) = true
+    · simp [h1, h2] at h
+    · simp only [h1, h2] at h
+      injection h with h
+      intro l hl
+      rw [← h] at hl
+      rcases List.mem_append.mp hl with h3 | h3
+      · have := (List.mem_filter.mp h3).2
+        simpa using this
+      · by_cases he : (keptLast ic contents).isEmpty = true
+        · simp [he] at h3
+        · have h4 : l = keptLast ic contents := by simpa [he] using h3
+          subst h4
+          unfold keptLast at he ⊢
+          by_cases hc : isComment ic ((splitNl contents).getLast?.getD []) = true
+          · simp [hc] at he
+          · simpa [hc] using hc
 
 end Pharmpy.C13
